@@ -21,6 +21,10 @@ def call_of(name, rnd, route, script, kind):
         if name == "msgC":
             return {"api": "get_plc_name"}
         return {"api": "get_plc_info"}
+    if kind == "slc" and name == "msgC":
+        e = rnd.randint(0, 9)
+        return {"api": "read", "tags": ["N7:%d" % e],
+                "intent": {"items": [{"pos": 0, "bit": -1, "sub": "", "count": 1, "valid": 1, "value": {"none": 1}, "ftype": "N", "file": 7, "elem": e}]}}
     c, s = S.generic_call(rnd, route, mode="connected" if name == "msgC" else rnd.choice(["ucmm", "ucsend"]),
                           script={"status": 0, "ext": [], "data": [1, 2, 3]})
     script.append(s)
@@ -29,6 +33,8 @@ def call_of(name, rnd, route, script, kind):
 
 def scenario(i, policy, fkind, fat, hist, rnd, kind="cip", withblock=False):
     route = [S.port_seg("bp", 1)] if kind == "cip" else [S.port_seg("bp", 0)]
+    if kind == "slc":
+        route = [S.port_seg("bp", 0)]
     path = "10.9.8.7/bp/1" if kind == "cip" else "10.9.8.7"
     script, calls = [], []
     for h in hist:
@@ -46,6 +52,9 @@ def scenario(i, policy, fkind, fat, hist, rnd, kind="cip", withblock=False):
         from ..projgen import small_project
         sc["project"], sc["mem"] = small_project(rnd)
         sc["driver"]["init_tags"] = rnd.random() < 0.5
+    if kind == "slc":
+        from . import c18
+        sc["slc"] = c18.table(rnd)
     return sc
 
 
@@ -73,7 +82,7 @@ def build(ctx, rnd, thorough):
         hist = [rnd.choice(["open", "close", "msgC", "msgU"]) for _ in range(rnd.randint(3, 8))]
         if rnd.random() < 0.6:
             hist = ["open"] + hist
-        kind = rnd.choice(["cip", "cip", "logix"])
+        kind = rnd.choice(["cip", "cip", "logix", "slc"])
         fk = rnd.choice(["none", "raise", "eof"])
         fat = rnd.randint(1, 60 if kind == "logix" else 20)
         scs.append(scenario(len(scs), rnd.choice(["LargeOK", "LargeRefused", "AllRefused", "SessionRefused"]), fk, fat, hist, rnd,
